@@ -368,7 +368,7 @@ def generate(repo, verif):
     L.append("Definition dlc_forwards : list dlfwd :=\n  %s.\n" % cl(["\n   mkDl %s %s %s %s" % (cs(n), cs(c), cl([cs(a) for a in a_]), cl([cs(p) for p in p_])) for n, c, a_, p_ in dlc_fw]))
     L.append("Definition dlc_provides : list dlprov :=\n  %s.\n" % cl(["\n   mkDlProv %s %s" % (cs(n), cs(t)) for n, t in dlc_pv]))
     out = "\n".join(L)
-    gen = os.path.join(verif, "coq", "gen")
+    gen = (os.environ.get("VERIF_GEN_OUT") or os.path.join(verif, "coq", "gen"))
     os.makedirs(gen, exist_ok=True)
     p = os.path.join(gen, "Wrappers.v")
     old = open(p, encoding="utf-8").read() if os.path.exists(p) else None
